@@ -164,7 +164,8 @@ func variants(root *node, fault string, s site) []string {
 			return []string{"map-wrap", "seq-wrap", "map-empty", "seq-empty"}
 		}
 	case "escape":
-		return []string{"%", "%0a%", "%zz", "%0a%zz", "%e4%b8", "pre:%", "pre:%0a%", "%%", "%2", "%2f%"}
+		// the last three are well-formed (controls: must not fail because of the escape)
+		return []string{"%", "%0a%", "%zz", "%0a%zz", "%e4%b8", "pre:%", "pre:%0a%", "%%", "%2", "%2f%", "%2F", "%25", "%e4%b8%96"}
 	case "dangling":
 		if n.K == kMap {
 			return []string{"replace-missing"}
